@@ -236,6 +236,7 @@ theorem dropInactive_same {s s' : State} {id : Nat} (h1 : inactiveSettleShapeOk 
   obtain ⟨p0, hp0, _, _⟩ := ha.both.q.inactSound t id ht
   have key : s'.props = dropProp s.props id ∧ s'.time = s.time ∧ s'.params = s.params := by
     unfold dropInactive at hs'
+    simp only [refundRun_eq, burnRun_eq] at hs'
     simp only [hp0, h1, if_true] at hs'
     split at hs'
     · have sp := refundDeposits_spec (by simpa using ha.inv.bal) hs'
@@ -269,6 +270,7 @@ theorem finishTally_shape {s s' : State} {pid : Nat} {p : Proposal} {passes burn
     ∃ q, findProp s'.props pid = some q ∧ Ended s p q passes := by
   have hpid : p.id = pid := findProp_id hp
   unfold finishTally at h
+  simp only [refundRun_eq, burnRun_eq] at h
   simp only [h2, Bool.not_true, Bool.false_and, Bool.false_eq_true, if_false] at h
   simp only [if_true] at h
   have settle : ∀ s1 : State,
